@@ -280,7 +280,13 @@ pub fn resolve(family: &Family, ops: &[AOp], d: &Desc, rc: &ResolveCtx) -> Resul
                 })
                 .max()
                 .unwrap_or(0);
-            Ok(mk(Some(prev + step), AInfo::Counter { neg, total: prev + step }))
+            // the library keeps an actor's running total in a u64: histories that would overflow it are outside
+            // every property's premise and are not generated
+            let total = match prev.checked_add(step) {
+                Some(t) => t,
+                None => return Err("running total would overflow u64".into()),
+            };
+            Ok(mk(Some(total), AInfo::Counter { neg, total }))
         }
         (Family::VClock, Desc::Inc) => {
             let n = own_dotted(&|_| true) + 1;
@@ -467,22 +473,64 @@ pub fn seq_alive(ops: &[AOp], k: KSet) -> BTreeSet<u64> {
 /// run-global precedence relation for C12: once x was seen before y anywhere, never y before x
 #[derive(Default, Clone)]
 pub struct SeqOracle {
-    before: BTreeSet<(u64, u64)>,
+    before: std::collections::HashSet<(u64, u64)>,
+    last: BTreeMap<usize, Vec<u64>>,
 }
 
 impl SeqOracle {
-    pub fn observe(&mut self, vals: &[u64]) -> Result<(), String> {
-        let mut seen = BTreeSet::new();
+    fn check_pair(&self, a: u64, b: u64, vals: &[u64]) -> Result<(), String> {
+        if self.before.contains(&(b, a)) {
+            return Err(format!("{} before {} in {:?}, but {} was before {} earlier in the run", a, b, vals, b, a));
+        }
+        Ok(())
+    }
+    /// `who` identifies the observer (a replica); its previous observation makes the common cases — nothing
+    /// changed, one element inserted, one element deleted — cost O(n) instead of O(n^2)
+    pub fn observe(&mut self, who: usize, vals: &[u64]) -> Result<(), String> {
+        let mut seen = std::collections::HashSet::new();
         for v in vals {
             if !seen.insert(*v) {
                 return Err(format!("element {} appears twice in {:?}", v, vals));
             }
         }
+        let prev = self.last.get(&who).cloned().unwrap_or_default();
+        if prev.as_slice() == vals {
+            return Ok(());
+        }
+        // one element inserted?
+        if vals.len() == prev.len() + 1 {
+            if let Some(p) = (0..vals.len()).find(|i| *i >= prev.len() || prev[*i] != vals[*i]) {
+                if prev[p..] == vals[p + 1..] {
+                    let x = vals[p];
+                    for a in &vals[..p] {
+                        self.check_pair(*a, x, vals)?;
+                    }
+                    for b in &vals[p + 1..] {
+                        self.check_pair(x, *b, vals)?;
+                    }
+                    for a in &vals[..p] {
+                        self.before.insert((*a, x));
+                    }
+                    for b in &vals[p + 1..] {
+                        self.before.insert((x, *b));
+                    }
+                    self.last.insert(who, vals.to_vec());
+                    return Ok(());
+                }
+            }
+        }
+        // one element deleted? every remaining pair was already recorded
+        if vals.len() + 1 == prev.len() {
+            if let Some(p) = (0..prev.len()).find(|i| *i >= vals.len() || prev[*i] != vals[*i]) {
+                if prev[p + 1..] == vals[p..] {
+                    self.last.insert(who, vals.to_vec());
+                    return Ok(());
+                }
+            }
+        }
         for i in 0..vals.len() {
             for j in i + 1..vals.len() {
-                if self.before.contains(&(vals[j], vals[i])) {
-                    return Err(format!("{} before {} in {:?}, but {} was before {} earlier in the run", vals[i], vals[j], vals, vals[j], vals[i]));
-                }
+                self.check_pair(vals[i], vals[j], vals)?;
             }
         }
         for i in 0..vals.len() {
@@ -490,7 +538,11 @@ impl SeqOracle {
                 self.before.insert((vals[i], vals[j]));
             }
         }
+        self.last.insert(who, vals.to_vec());
         Ok(())
+    }
+    pub fn forget(&mut self, who: usize) {
+        self.last.remove(&who);
     }
 }
 
